@@ -7,7 +7,8 @@ import json, os, subprocess, sys, shutil, glob
 seed = sys.argv[1].rstrip('/')
 keep = '--keep' in sys.argv
 ENV = dict(os.environ, GOFLAGS='-mod=mod', GOPROXY='off', GOSUMDB='off', GOTOOLCHAIN='local', GOWORK='off')
-MUT = '/tmp/mut'
+MUT = os.environ.get('MUT', '/tmp/mut')
+MV = MUT + '-verif'
 def sh(cmd, cwd=None, timeout=1800):
     p = subprocess.run(cmd, shell=True, cwd=cwd, env=ENV, capture_output=True, text=True, timeout=timeout)
     return p.returncode, (p.stdout + p.stderr)
@@ -67,17 +68,24 @@ for pk in pkgs:
         res.setdefault('baseline_tests_broken', []).extend(sorted(base - passed)[:5])
 res['existing_tests_pass'] = tests_ok
 # checks
-os.makedirs('/tmp/mut-verif', exist_ok=True)
-for f in ('properties.jsonl', 'known_findings.json'): shutil.copy('/verif/' + f, '/tmp/mut-verif/' + f)
+os.makedirs(MV + '', exist_ok=True)
+for f in ('properties.jsonl', 'known_findings.json'): shutil.copy('/verif/' + f, MV + '/' + f)
 implemented = subprocess.check_output(['/verif/bin/vcheck', '-list'], text=True).split()
 props = [p for p in [prop] + [p for p in meta.get('also_check', [])] if p in implemented]
 if '--all' in sys.argv:
     props = subprocess.check_output(['/verif/bin/vcheck', '-list'], text=True).split()
 caught = {}
-for p in props:
-    rc, out = sh(f'VERIF_REPO={MUT} /verif/bin/vcheck -verif /tmp/mut-verif -prop {p} -tier quick', timeout=600)
-    viol = [l for l in out.splitlines() if l.startswith(('VIOLATION C', 'UNDECIDED'))]
-    caught[p] = {'exit': rc, 'violations': [v[:300] for v in viol[:6]]}
+rc, out = sh(f'VERIF_REPO={MUT} /verif/bin/vcheck -verif {MV} -prop all -tier quick', timeout=900)
+cur = []
+for l in out.splitlines():
+    if l.startswith(('VIOLATION C', 'UNDECIDED', 'LOAD FAILURE')): cur.append(l[:300])
+    elif l.startswith('VIOLATION property='):
+        pid = l.split('property=')[1].split()[0]
+        if pid in props:
+            caught.setdefault(pid, {'exit': 1, 'violations': []})
+            caught[pid]['violations'] += [c for c in cur if c not in caught[pid]['violations']][:6]
+        cur = []
+for p in props: caught.setdefault(p, {'exit': 0, 'violations': []})
 res['checks'] = caught
 res['caught_by'] = [p for p, c in caught.items() if c['exit'] != 0]
 sh(f'git -C {MUT} reset -q --hard; git -C {MUT} clean -fdq')
